@@ -112,13 +112,15 @@ func runC15(c *Ctx) {
 			}
 			c.obI("R15.1", r, "returns-call-error", ok, "a codec returns nil, a constructed error or the error of the I/O call that failed", "")
 		}
-		// dropped errors
-		for _, in := range instrs(f) {
-			call, ok := in.(*ssa.Call)
-			if !ok || errorResultIndex(call.Call.Signature()) < 0 {
+		// dropped errors of deferred calls: only a Close may be deferred with its error ignored — a deferred Flush (or
+		// any other write) that fails would be reported as success
+		for _, d := range defersIn(f) {
+			if errorResultIndex(d.Call.Signature()) < 0 {
 				continue
 			}
-			_ = call
+			name := calleeName(&d.Call)
+			isClose := d.Call.IsInvoke() && d.Call.Method.Name() == "Close" || strings.HasSuffix(name, ").Close") || name == ""
+			c.obI("R15.1", d, "deferred-error-only-of-close", isClose, "the only deferred calls whose error a codec ignores are closes; every write (Flush included) has its error returned", "the error of deferred "+name+" is dropped: a failed write is reported as success")
 		}
 		// R15.4 nil guards
 		isIface := func(v *ssa.Parameter) bool {
@@ -211,6 +213,17 @@ func runC15(c *Ctx) {
 				} else {
 					judge(d, d.Call.Value, func(fact EdgePred) bool { return guardedBy(d, nil, fact) })
 				}
+			}
+			// no other way of closing the stream: every Close invoked on the stream itself sits behind the option
+			for _, ci := range allCalls(f) {
+				cc := ci.Common()
+				if !cc.IsInvoke() || cc.Method.Name() != "Close" {
+					continue
+				}
+				if okS, _ := allOrigins(cc.Value, oIsValue(stream)); !okS {
+					continue
+				}
+				c.obI("R15.2", ci, "stream-close-only-on-request", guardedBy(ci, nil, optClose), "the stream's Close is called only when the closing option was requested (also on failures: a broken stream is still the caller's to close)", "the stream is closed on a path on which closing was not requested")
 			}
 			c.obF("R15.2", f, "closer-deferred", closerDefer != nil, "the (possibly no-op) closer is deferred", "")
 			if closerDefer != nil {
